@@ -12,7 +12,7 @@ import (
 var proxyRe = regexp.MustCompile(`P\(([^|()]*)\|([^|()]*)\|([^|()]*)\|([01])\|`)
 
 // proxyEntry extracts the canonical entry of proxy `name` from a snapshot ("" if absent).
-func proxyEntry(snap, name string) string {
+func ProxyEntry(snap, name string) string {
 	inner := strings.TrimSuffix(strings.TrimPrefix(snap, "M["), "]")
 	depth := 0
 	start := 0
@@ -86,19 +86,19 @@ func (e *Engine) oracles(i int, fail failFn, method, path string, browser bool, 
 		}
 		// read-your-writes: GET /proxies/{name}
 		if !browser && method == "GET" && len(segs) == 2 && segs[0] == "proxies" {
-			ent := proxyEntry(snap, segs[1])
+			ent := ProxyEntry(snap, segs[1])
 			if (ent == "") != (r.status == 404) || (ent != "" && (r.status != 200 || r.canon != ent)) {
 				return fail(i, "oracle", "C05", ent, fmt.Sprintf("%d %s", r.status, r.canon),
 					"GET /proxies/{name} does not reflect the registry", "e4:C05:read-your-writes")
 			}
 		}
 		// unknown proxy: 404 on every sub-route
-		if !browser && len(segs) >= 2 && segs[0] == "proxies" && r.status != 405 && proxyEntry(snap, segs[1]) == "" && r.status != 404 {
+		if !browser && len(segs) >= 2 && segs[0] == "proxies" && r.status != 405 && ProxyEntry(snap, segs[1]) == "" && r.status != 404 {
 			return fail(i, "oracle", "C05", "404", fmt.Sprint(r.status), "unknown proxy name did not yield 404", "e4:C05:unknown-proxy")
 		}
 		// create: duplicate name is 409; defaults
 		if !browser && method == "POST" && len(segs) == 1 && segs[0] == "proxies" {
-			if jv, ok := parseJV(body); ok && jv.Kind == "obj" {
+			if jv, ok := ParseJV(body); ok && jv.Kind == "obj" {
 				name, up, okShape := "", "", true
 				hasEnabled := false
 				for _, kv := range jv.Obj {
@@ -126,7 +126,7 @@ func (e *Engine) oracles(i int, fail failFn, method, path string, browser bool, 
 						}
 					}
 				}
-				if okShape && name != "" && up != "" && proxyEntry(snap, name) != "" && r.status != 409 {
+				if okShape && name != "" && up != "" && ProxyEntry(snap, name) != "" && r.status != 409 {
 					return fail(i, "oracle", "C05", "409", fmt.Sprint(r.status), "creating a proxy whose name exists did not yield 409", "e4:C05:dup-proxy")
 				}
 				if r.status == 201 && !hasEnabled && !strings.Contains(r.canon, "|1|") {
@@ -136,7 +136,7 @@ func (e *Engine) oracles(i int, fail failFn, method, path string, browser bool, 
 		}
 		// toxic create: defaults
 		if !browser && method == "POST" && len(segs) == 3 && segs[2] == "toxics" && r.status == 200 {
-			if jv, ok := parseJV(body); ok && jv.Kind == "obj" {
+			if jv, ok := ParseJV(body); ok && jv.Kind == "obj" {
 				has := map[string]bool{}
 				ty := ""
 				for _, kv := range jv.Obj {
@@ -194,7 +194,7 @@ func (e *Engine) oracles(i int, fail failFn, method, path string, browser bool, 
 // distinctNames: no proxy name occurs twice in a populate body (otherwise a later entry
 // replaces an earlier one and a repetition is not a no-op by the property's own wording).
 func distinctNames(body string) bool {
-	jv, ok := parseJV(body)
+	jv, ok := ParseJV(body)
 	if !ok || jv.Kind != "arr" {
 		return false
 	}
